@@ -96,3 +96,15 @@ Definition pres_value (kernel : tensor Z -> Z -> res (tensor Z)) (r : pres) : re
   | RPacked p => packed_unpack kernel (p_data p) (p_bits p) (p_size p)
   | RPlain t => Ok t
   end.
+
+(* fingerprints of the hand-modelled parts of PackedTensor / the quanto:: op routing (see p_dispatch, quanto_unpack) *)
+Definition packed_prints : list (string * string) := [
+  ("__torch_dispatch__"%string, "6ff9e75129e945c0"%string);
+  ("pack"%string, "f174e54655fc368a"%string);
+  ("__new__"%string, "227c96a4aa7d681d"%string);
+  ("__init__"%string, "fb20cf75568bdc59"%string);
+  ("__tensor_flatten__"%string, "8d6fd6b8fb2ceb18"%string);
+  ("__tensor_unflatten__"%string, "f83b36b1fddf7a89"%string);
+  ("load_from_state_dict"%string, "1c164f4fa0746926"%string);
+  ("ops.define"%string, "aa7520614c627a3f"%string);
+  ("ops.disable_extensions"%string, "be7b437e0c934013"%string)].
